@@ -715,7 +715,7 @@ def gen_c01(ctx):
       yield mk_c01(rng, metric, cfg, copy.deepcopy(shards), api='object')
       yield mk_c01(rng, metric, cfg, copy.deepcopy(shards), api='aggfn')
   # wide-vocabulary multi-batch streams around every state-size constant (SC07c)
-  yield from gen_wide_c01(rng, 60 if ctx.quick else 3000)
+  yield from gen_wide_c01(rng, 120 if ctx.quick else 4000)
   # random
   for _ in range(500 if ctx.quick else 50000):
     metric = rng.choice(['ngrams', 'ngrams', 'patterns'])
@@ -810,7 +810,7 @@ def gen_c07(ctx):
       yield dict(kind='c07', metric='patterns', cfg=dict(patterns=['a', 'aa', 'ab', ''][: 1 + i % 4], dup=dup),
                  api='object', batches=[[t, ptexts[(i * 7) % len(ptexts)]]])
   # wide-vocabulary multi-batch streams through every accumulation path (SC07c)
-  yield from gen_wide_c07(rng, 60 if ctx.quick else 3000)
+  yield from gen_wide_c07(rng, 120 if ctx.quick else 4000)
   for _ in range(500 if ctx.quick else 50000):
     metric = rng.choice(['ngrams', 'ngrams', 'patterns'])
     yield dict(kind='c07', metric=metric, cfg=gen_cfg(rng, metric), api=rng.choice(['object', 'aggfn']),
